@@ -21,9 +21,9 @@ OUTSIDE = ["the hash functions themselves (A1)", "calendar-query's getetag share
 ASSUMPTIONS = ["A1, A2, A7 and the body-token conventions of C01"]
 
 
-def body_store_etags(c0, c1, c2, target, body):
+def body_store_etags(c0, c1, c2, target, body, chunked=False):
     kind, op, cond = ctx.PART
-    f = _store.step(kind, [c0, c1, c2], ctx.b.n, op, target, body, cond)
+    f = _store.step(kind, [c0, c1, c2], ctx.b.n, op, target, body, cond, chunked=chunked)
     if f is None:
         return (True, "pre-invalid")
     if kind == "vdir" and f["name"].endswith(".txt"):
@@ -313,7 +313,12 @@ _B = {"quick": {"n": 2, "blen": 2, "elen": 4}, "thorough": {"n": 3, "blen": 3, "
 
 def body_store_etags_menu(i0, i1, target):
     """`body_store_etags` over the token menu (see _store.menu_steps): exhaustive for every partition."""
-    return _store.menu_steps(body_store_etags, i0, i1, target, with_hist=False)
+    r = _store.menu_steps(body_store_etags, i0, i1, target, with_hist=False)
+    if not r[0] or ctx.PART[1] != 0:
+        return r
+    # ... and with the written body handed over in two chunks (`content` is an iterable of bytes)
+    r2 = _store.menu_steps(lambda *a: body_store_etags(*a, chunked=True), i0, i1, target, with_hist=False)
+    return r2 if not r2[0] else r
 
 
 def h_store_etags_menu(i0: int, i1: int, target: int) -> bool:
